@@ -121,6 +121,22 @@ func genAlign(t *rapid.T, name string) float32 {
 func genCase(t *rapid.T) Case {
 	w, h := genPos(t, "vw"), genPos(t, "vh")
 	dx, dy := genPos(t, "dx"), genPos(t, "dy")
+	if rapid.IntRange(0, 4).Draw(t, "sameaspect") == 0 {
+		// a target of exactly the viewBox's proportions (an icon drawn at k times its size): the two
+		// candidate scales tie up to rounding, whatever the ratio is (1:7 has no exact float32)
+		if rapid.Bool().Draw(t, "sa.small") {
+			w, h = float32(rapid.IntRange(1, 24).Draw(t, "sa.w")), float32(rapid.IntRange(1, 24).Draw(t, "sa.h"))
+		}
+		k := float32(rapid.IntRange(1, 64).Draw(t, "sa.k"))
+		if rapid.IntRange(0, 3).Draw(t, "sa.frac") == 0 {
+			k = float32(rapid.IntRange(1, 64*16).Draw(t, "sa.k16")) / 16
+		}
+		dx, dy = w*k, h*k
+		if rapid.IntRange(0, 3).Draw(t, "sa.ulp") == 0 {
+			// ... or one float32 step off them
+			dx = math.Nextafter32(dx, float32(rapid.SampledFrom([]float64{0, math.Inf(1)}).Draw(t, "sa.dir")))
+		}
+	}
 	// a common factor over the whole float32 range, applied to the viewBox or
 	// the target or both: ratios stay as generated, magnitudes do not
 	if rapid.IntRange(0, 2).Draw(t, "common") == 0 {
@@ -186,6 +202,12 @@ func classify(c Case) (bool, uint64, []string) {
 		labels = append(labels, "viewbox-wider-than-target")
 	} else {
 		labels = append(labels, "viewbox-narrower-than-target")
+	}
+	if math.Abs(ra/rb-1) < 1e-6 {
+		labels = append(labels, "target-of-the-viewbox's-proportions(+-1e-6)")
+		if vw != vh {
+			labels = append(labels, "same-proportions,non-square")
+		}
 	}
 	if r := math.Abs(math.Log10(ra / rb)); r > 3 {
 		labels = append(labels, "aspect-mismatch>1e3")
